@@ -30,7 +30,8 @@ PROCS = 12
 
 def run_real(case):
   out = ec.run_test_case(case)
-  return {'tokens': ec.core_tokens(out['tokens']) + ['X:ret:%d' % (1 if out['ret'] else 0), 'X:crash:%d' % len(out['crashes'])]}
+  return {'tokens': ec.core_tokens(out['tokens']) + ['X:ret:%d' % (1 if out['ret'] else 0), 'X:crash:%d' % len(out['crashes'])] +
+          ['X:crashtype:' + c for c in sorted(set(out['crashes']))]}
 
 
 def encode(case, obs):
@@ -75,6 +76,8 @@ def corpus():
       {'nodes': [_p(1, [{'raw': 'fexc'}])], 'src': 'corpus'},
       {'start': _p(9, [{'raw': 'stop'}]), 'nodes': [_p(1, [C])], 'src': 'corpus'},
       {'start': _p(9, [C]), 'nodes': [_p(1, [C])], 'src': 'corpus'},
+      # the executor thread itself fails (rendering a phase record whose exception cannot be str()'d): known finding
+      {'nodes': [_p(1, [{'raw': 'exc', 'badstr': True}]), _p(2, [C])], 'src': 'corpus'},
   ]
   return out
 
